@@ -199,6 +199,9 @@ impl Session {
             std::mem::forget(d);
         }
         self.fs = std::ptr::null_mut(); // leaked on purpose: a few hundred bytes
+        // the leaked FileSystem keeps a handle on the device: release the storage so that only the handle leaks
+        let _ = self.dev.take_store();
+        self.dev.clear_logs();
     }
 }
 
